@@ -1,6 +1,6 @@
 import sys, json, subprocess, xml.etree.ElementTree as ET, os, time
 repo = sys.argv[1]
-out = '/tmp/verif_junit.xml'
+out = '/tmp/verif_junit_%d.xml' % os.getpid()
 t=time.time()
 subprocess.run(['/venv/bin/python','-m','pytest','-ra','-q','-p','no:cacheprovider','--timeout=900','--continue-on-collection-errors','--junitxml='+out], cwd=repo, stdout=subprocess.DEVNULL, stderr=subprocess.DEVNULL)
 base = json.load(open('/root/.vp/BASELINE.json'))
